@@ -1,0 +1,339 @@
+//! Verification hooks, compiled only with `--cfg feoxdb_verif`.
+//!
+//! Everything here is inert until an external harness installs a sink, a
+//! virtual clock, a fault plan or a schedule controller. Ordinary builds do
+//! not contain this module.
+
+use std::sync::atomic::{AtomicBool, AtomicU64, Ordering};
+use std::sync::RwLock;
+
+/// One observed fact. `kind` names the event; the meaning of the scalar
+/// fields is fixed per kind by the emitting site.
+pub struct Ev<'a> {
+    pub kind: &'static str,
+    pub key: &'a [u8],
+    pub a: u64,
+    pub b: u64,
+    pub c: u64,
+    pub data: &'a [u8],
+}
+
+type Sink = Box<dyn Fn(u64, &Ev) + Send + Sync>;
+
+static SINK_ON: AtomicBool = AtomicBool::new(false);
+static SINK: RwLock<Option<Sink>> = RwLock::new(None);
+static SEQ: AtomicU64 = AtomicU64::new(0);
+
+pub fn install(sink: Sink) {
+    *SINK.write().unwrap_or_else(|e| e.into_inner()) = Some(sink);
+    SINK_ON.store(true, Ordering::SeqCst);
+}
+
+pub fn uninstall() {
+    SINK_ON.store(false, Ordering::SeqCst);
+    *SINK.write().unwrap_or_else(|e| e.into_inner()) = None;
+}
+
+#[inline]
+pub fn enabled() -> bool {
+    SINK_ON.load(Ordering::Relaxed)
+}
+
+pub fn emit_ev(ev: Ev) {
+    if !enabled() {
+        return;
+    }
+    let guard = SINK.read().unwrap_or_else(|e| e.into_inner());
+    if let Some(sink) = guard.as_ref() {
+        let seq = SEQ.fetch_add(1, Ordering::SeqCst);
+        sink(seq, &ev);
+    }
+}
+
+#[inline]
+pub fn emit(kind: &'static str, key: &[u8], a: u64, b: u64, c: u64) {
+    if enabled() {
+        emit_ev(Ev {
+            kind,
+            key,
+            a,
+            b,
+            c,
+            data: &[],
+        });
+    }
+}
+
+#[inline]
+pub fn emit_data(kind: &'static str, a: u64, b: u64, data: &[u8]) {
+    if enabled() {
+        emit_ev(Ev {
+            kind,
+            key: &[],
+            a,
+            b,
+            c: 0,
+            data,
+        });
+    }
+}
+
+// ---------------------------------------------------------------- clock
+
+static NOW_ON: AtomicBool = AtomicBool::new(false);
+static NOW: AtomicU64 = AtomicU64::new(0);
+
+pub fn set_now(ns: u64) {
+    NOW.store(ns, Ordering::SeqCst);
+    NOW_ON.store(true, Ordering::SeqCst);
+}
+
+pub fn clear_now() {
+    NOW_ON.store(false, Ordering::SeqCst);
+}
+
+#[inline]
+pub fn now() -> Option<u64> {
+    if NOW_ON.load(Ordering::Relaxed) {
+        Some(NOW.load(Ordering::SeqCst))
+    } else {
+        None
+    }
+}
+
+// ---------------------------------------------------------------- device faults
+
+/// Decision for one device call: 0 = proceed, 1 = fail before the bytes are
+/// submitted, 2 = perform the call and then report failure.
+type FaultFn = Box<dyn Fn(u64, &'static str, u64, usize) -> u8 + Send + Sync>;
+
+static FAULT_ON: AtomicBool = AtomicBool::new(false);
+static FAULT: RwLock<Option<FaultFn>> = RwLock::new(None);
+static IO_INDEX: AtomicU64 = AtomicU64::new(0);
+static FORCE_SYNC: AtomicBool = AtomicBool::new(false);
+
+pub fn set_fault_fn(f: Option<FaultFn>) {
+    let on = f.is_some();
+    *FAULT.write().unwrap_or_else(|e| e.into_inner()) = f;
+    FAULT_ON.store(on, Ordering::SeqCst);
+}
+
+pub fn io_calls() -> u64 {
+    IO_INDEX.load(Ordering::SeqCst)
+}
+
+pub fn reset_io_calls() {
+    IO_INDEX.store(0, Ordering::SeqCst);
+}
+
+pub fn force_sync(on: bool) {
+    FORCE_SYNC.store(on, Ordering::SeqCst);
+}
+
+#[inline]
+pub fn force_sync_io() -> bool {
+    FORCE_SYNC.load(Ordering::Relaxed)
+}
+
+/// Called once per device write / fsync with the call's kind ("write",
+/// "fsync"), first sector and byte length.
+pub fn io_decide(kind: &'static str, sector: u64, len: usize) -> u8 {
+    let index = IO_INDEX.fetch_add(1, Ordering::SeqCst);
+    if !FAULT_ON.load(Ordering::Relaxed) {
+        return 0;
+    }
+    let decision = {
+        let guard = FAULT.read().unwrap_or_else(|e| e.into_inner());
+        match guard.as_ref() {
+            Some(f) => f(index, kind, sector, len),
+            None => 0,
+        }
+    };
+    if decision != 0 {
+        emit("fault", kind.as_bytes(), index, decision as u64, sector);
+    }
+    decision
+}
+
+pub fn injected(kind: &'static str, when: &'static str) -> std::io::Error {
+    std::io::Error::other(format!("injected {kind} failure ({when})"))
+}
+
+// ---------------------------------------------------------------- scheduling points
+
+pub mod sched {
+    //! Controlled scheduler. Threads that registered themselves park at every
+    //! named point until the controller lets them take one step. Unregistered
+    //! threads pass through.
+    use std::collections::{HashMap, HashSet};
+    use std::sync::atomic::{AtomicBool, AtomicU64, Ordering};
+    use std::sync::{Condvar, Mutex};
+    use std::thread::ThreadId;
+    use std::time::{Duration, Instant};
+
+    #[derive(Default)]
+    struct State {
+        arrivals: HashMap<ThreadId, (u64, &'static str)>,
+        allowed: HashSet<ThreadId>,
+        done: HashSet<ThreadId>,
+        registered: HashSet<ThreadId>,
+    }
+
+    static ON: AtomicBool = AtomicBool::new(false);
+    static YIELD_MASK: AtomicU64 = AtomicU64::new(0);
+    static YIELD_STATE: AtomicU64 = AtomicU64::new(0x9E37_79B9_7F4A_7C15);
+    static STATE: Mutex<Option<State>> = Mutex::new(None);
+    static CV: Condvar = Condvar::new();
+
+    fn lock() -> std::sync::MutexGuard<'static, Option<State>> {
+        STATE.lock().unwrap_or_else(|e| e.into_inner())
+    }
+
+    pub fn enable() {
+        *lock() = Some(State::default());
+        ON.store(true, Ordering::SeqCst);
+    }
+
+    pub fn disable() {
+        ON.store(false, Ordering::SeqCst);
+        *lock() = None;
+        CV.notify_all();
+    }
+
+    /// Free-running mode: every scheduling point yields or sleeps briefly with
+    /// probability `1 / (mask + 1)`; 0 turns it off.
+    pub fn set_random_yield(mask: u64, seed: u64) {
+        YIELD_STATE.store(seed | 1, Ordering::SeqCst);
+        YIELD_MASK.store(mask, Ordering::SeqCst);
+    }
+
+    pub fn register_current() {
+        if let Some(s) = lock().as_mut() {
+            s.registered.insert(std::thread::current().id());
+        }
+    }
+
+    pub fn finish_current() {
+        if let Some(s) = lock().as_mut() {
+            s.done.insert(std::thread::current().id());
+        }
+        CV.notify_all();
+    }
+
+    #[inline]
+    pub fn point(name: &'static str) {
+        let mask = YIELD_MASK.load(Ordering::Relaxed);
+        if mask != 0 {
+            let mut x = YIELD_STATE.load(Ordering::Relaxed);
+            x ^= x << 13;
+            x ^= x >> 7;
+            x ^= x << 17;
+            YIELD_STATE.store(x, Ordering::Relaxed);
+            if x & mask == 0 {
+                if x & (mask << 8) == 0 {
+                    std::thread::sleep(Duration::from_micros(50));
+                } else {
+                    std::thread::yield_now();
+                }
+            }
+        }
+        if !ON.load(Ordering::Relaxed) {
+            return;
+        }
+        let id = std::thread::current().id();
+        let mut g = lock();
+        match g.as_mut() {
+            Some(s) if s.registered.contains(&id) => {
+                let e = s.arrivals.entry(id).or_insert((0, name));
+                e.0 += 1;
+                e.1 = name;
+            }
+            _ => return,
+        }
+        CV.notify_all();
+        loop {
+            match g.as_mut() {
+                None => return,
+                Some(s) => {
+                    if s.allowed.remove(&id) {
+                        return;
+                    }
+                }
+            }
+            g = CV.wait(g).unwrap_or_else(|e| e.into_inner());
+        }
+    }
+
+    /// Let thread `id` run to its next scheduling point (returns its name), to
+    /// completion (`Some("")` is never produced; completion is `None`), or
+    /// report a stall after `timeout` (`Some("<stall>")`).
+    pub fn step(id: ThreadId, timeout: Duration) -> Option<&'static str> {
+        let deadline = Instant::now() + timeout;
+        let mut g = lock();
+        let before = g
+            .as_ref()
+            .and_then(|s| s.arrivals.get(&id).map(|a| a.0))
+            .unwrap_or(0);
+        if let Some(s) = g.as_mut() {
+            s.allowed.insert(id);
+        }
+        CV.notify_all();
+        loop {
+            {
+                let s = g.as_ref()?;
+                if let Some(a) = s.arrivals.get(&id) {
+                    if a.0 > before {
+                        return Some(a.1);
+                    }
+                }
+                if s.done.contains(&id) {
+                    return None;
+                }
+            }
+            let now = Instant::now();
+            if now >= deadline {
+                return Some("<stall>");
+            }
+            let (guard, _) = CV
+                .wait_timeout(g, deadline - now)
+                .unwrap_or_else(|e| e.into_inner());
+            g = guard;
+        }
+    }
+
+    /// Wait until thread `id` has parked for the first time or finished.
+    pub fn wait_parked(id: ThreadId, timeout: Duration) -> bool {
+        let deadline = Instant::now() + timeout;
+        let mut g = lock();
+        loop {
+            match g.as_ref() {
+                None => return false,
+                Some(s) => {
+                    if s.arrivals.contains_key(&id) || s.done.contains(&id) {
+                        return true;
+                    }
+                }
+            }
+            let now = Instant::now();
+            if now >= deadline {
+                return false;
+            }
+            let (guard, _) = CV
+                .wait_timeout(g, deadline - now)
+                .unwrap_or_else(|e| e.into_inner());
+            g = guard;
+        }
+    }
+
+    /// Name of the point thread `id` is currently parked at, if any.
+    pub fn parked_at(id: ThreadId) -> Option<&'static str> {
+        lock()
+            .as_ref()
+            .and_then(|s| s.arrivals.get(&id).map(|a| a.1))
+    }
+}
+
+#[inline]
+pub fn sched(name: &'static str) {
+    sched::point(name);
+}
